@@ -120,6 +120,14 @@ Proof.
 Qed.
 Print Assumptions C14_source_arithmetic.
 
+(* likewise db/bits.go's readTwos24 and readTwos48 (the 3 and 6 byte integer serial types), translated
+   with their shifts, ors and the sign test by mask: on every byte string they are the model's readers *)
+Theorem C14_source_twos : forall b0 b1 b2 b3 b4 b5,
+  go_readTwos24 (b2z b0) (b2z b1) (b2z b2) = read_twos24 [b0; b1; b2] /\
+  go_readTwos48 (b2z b0) (b2z b1) (b2z b2) (b2z b3) (b2z b4) (b2z b5) = read_twos48 [b0; b1; b2; b3; b4; b5].
+Proof. exact (fun b0 b1 b2 b3 b4 b5 => conj (go_readTwos24_spec b0 b1 b2) (go_readTwos48_spec b0 b1 b2 b3 b4 b5)). Qed.
+Print Assumptions C14_source_twos.
+
 (* non-vacuity: concrete objects meeting the hypotheses *)
 Example C14_record_example :
   parse_record (enc_record 7 [SNull; SInt 3 (-8388608); SInt 6 140737488355327; SReal 4607182418800017408; SText [x61; x62]; SOne])
